@@ -40,6 +40,8 @@ func init() {
 		c01FlushOrder(fs, wr)
 		// ---- LoadIndex cases
 		c01LoadIndex(fs, rd)
+		// ---- every path that buffers entries obeys the per-entry flush rule
+		c01BatchPaths(fs, wr, rd)
 	}})
 }
 
@@ -420,4 +422,75 @@ func c01LoadIndex(fs *Facts, f *File) {
 	}
 	fs.Tri("deleteRemoves", TriOf(del), where)
 	fs.Tri("metadataIgnored", TriOf(metaClean), where)
+}
+
+// c01BatchPaths: WriteEntries must ask for a flush after every Add (flushLocked inside the range
+// loop), the compaction paths must write entry by entry through WriteEntry, and ReadAllEntries /
+// ReadAllBlocks must scan until EOF (an unconditional `for {` around readNextBlock), not up to a
+// header counter.
+func c01BatchPaths(fs *Facts, wr *File, rd *File) {
+	const comp = "app/core/hydra/swamp/chronicler/v2/compactor.go"
+	per := Unknown
+	if wr != nil {
+		if fd := wr.Func("FileWriter", "WriteEntries"); fd != nil {
+			per = No
+			ast.Inspect(fd.Body, func(x ast.Node) bool {
+				if r, ok := x.(*ast.RangeStmt); ok {
+					if len(wr.CallsSuffix(r.Body, "buffer.Add")) == 1 && len(wr.Calls(r.Body, "fw.flushLocked")) == 1 {
+						per = Yes
+					}
+				}
+				return true
+			})
+		}
+	}
+	fs.Tri("writeEntriesFlushesPerEntry", per, c01Writer)
+	cp := Unknown
+	if cf, err := Load(comp); err == nil {
+		okAll := true
+		for _, fn := range []struct{ recv, name string }{{"Compactor", "Compact"}, {"", "CompactFromIndex"}} {
+			fd := cf.Func(fn.recv, fn.name)
+			if fd == nil {
+				okAll = false
+				continue
+			}
+			found := false
+			ast.Inspect(fd.Body, func(x ast.Node) bool {
+				if r, ok := x.(*ast.RangeStmt); ok && cf.Str(r.X) == "index" && len(cf.Calls(r.Body, "writer.WriteEntry")) == 1 {
+					found = true
+				}
+				return true
+			})
+			if !found || len(cf.Calls(fd.Body, "writer.WriteEntries")) > 0 {
+				okAll = false
+			}
+		}
+		cp = TriOf(okAll)
+	} else {
+		fs.Err("%v", err)
+	}
+	fs.Tri("compactionWritesPerEntry", cp, comp)
+	scan := Unknown
+	if rd != nil {
+		okAll := true
+		for _, name := range []string{"ReadAllEntries", "ReadAllBlocks"} {
+			fd := rd.Func("FileReader", name)
+			if fd == nil {
+				okAll = false
+				continue
+			}
+			found := false
+			ast.Inspect(fd.Body, func(x ast.Node) bool {
+				if fr, ok := x.(*ast.ForStmt); ok && fr.Cond == nil && fr.Init == nil && fr.Post == nil && len(rd.Calls(fr.Body, "fr.readNextBlock")) == 1 {
+					found = true
+				}
+				return true
+			})
+			if !found {
+				okAll = false
+			}
+		}
+		scan = TriOf(okAll)
+	}
+	fs.Tri("readerScansToEOF", scan, c01Reader)
 }
